@@ -48,6 +48,13 @@ def _amounts(thorough: bool):
     one(hours=24, minutes=60, seconds=60, microseconds=1000000)
     one(hours=-24, minutes=-60, seconds=-60, microseconds=-1000000)
     one(seconds=0)
+    # mixed signs whose bare numbers add up to zero (the amounts do not)
+    one(hours=1, minutes=-1)
+    one(minutes=30, seconds=-30)
+    one(seconds=1, microseconds=-1)
+    one(hours=2, minutes=-1, seconds=-1)
+    one(hours=-3, seconds=3)
+    one(minutes=-7, microseconds=7)
     if thorough:
         vals = {"hours": (0, 1, -1, 23, -25), "minutes": (0, 1, -1, 59, -61),
                 "seconds": (0, 1, -59, 60, -3601), "microseconds": (0, 1, -1, 999999, -1000001)}
